@@ -236,6 +236,12 @@ func (n *Namespace) add(c *serverConn, auth json.RawMessage) (*serverSocket, err
 func (n *Namespace) doConnect(socket *serverSocket) error {
 	n.sockets.set(socket)
 
+	// Register the socket on its connection before the CONNECT packet is sent (in onConnect):
+	// the client may send packets for this namespace as soon as it has received it, and a
+	// packet for a namespace that is not registered on the connection closes the connection.
+	socket.conn.sockets.set(socket)
+	socket.conn.nsps.set(n)
+
 	// It is paramount that the internal `onconnect` logic
 	// fires before user-set events to prevent state order
 	// violations (such as a disconnection before the connection
